@@ -23,6 +23,11 @@ CONFIGS = {
     ('aperture 3 endpoints, closing a departing member\'s channel fails once', {'kind': 'aperture', 'n': 3, 'min_size': 2,
                                                                                 'ops': ['D', 'C', 'Join', 'Leave', 'LeaveX'],
                                                                                 'max_out': 2, 'max_notifications': 4}, 6),
+    ('heap 3 endpoints, Open() called again after the balancer has opened', {'kind': 'heap', 'n': 2, 'extra': 1, 'ops': NOTIF + ['ReOpen'],
+                                                                            'max_out': 2, 'max_notifications': 3, 'probe': True}, 6),
+    ('aperture 3 endpoints, Open() called again after the balancer has opened', {'kind': 'aperture', 'n': 2, 'extra': 1, 'min_size': 1,
+                                                                                'ops': NOTIF + ['ReOpen', 'Adv'], 'advs': [3], 'max_out': 2,
+                                                                                'max_notifications': 3}, 6),
     ('heap, the first load of the member list fails with an Exception', {'kind': 'heap', 'n': 2, 'extra': 1, 'load_fails': 'exception',
                                                                         'ops': ['D', 'C', 'Adv', 'Join', 'Leave'], 'advs': [2], 'notifier': True,
                                                                         'max_out': 2, 'max_notifications': 2}, 5),
